@@ -56,6 +56,13 @@ func (e *Enc) Run() (err error) {
 		e.sc.Assert(e.tr.rangeAssumption(c, fv.Type(), 0))
 		e.assumeAllocated(c, fv.Type(), alloc0)
 	}
+	// captured variables are distinct, allocated cells
+	for i, a := range fn.FreeVars {
+		e.sc.Assert(App(SBool, ">", e.vals[a], IntLit(0)))
+		for _, b := range fn.FreeVars[i+1:] {
+			e.sc.Assert(Not(Eq(e.vals[a], e.vals[b])))
+		}
+	}
 	if e.fc != nil && e.fc.Recovers {
 		e.panicking = e.sc.Declare("caller_panicking", SBool)
 		e.panicVal = e.sc.Declare("caller_panicval", SIface)
